@@ -456,6 +456,6 @@ func checkColouringCase(c invCase, rec *Rec) error {
 func init() {
 	RegisterRapid("C09_clique_colouring",
 		"rapid: graph from the mixed generator (G(n,p), regular, circulant, named symmetric families, products, disjoint copies, joins, complements, toggled edges) plus odd cycles, wheels, Mycielski graphs, disjoint unions and n <= 3; n <= 8 (quick) / 10 (thorough); a relabelling, a GreedyColor order and a candidate colouring. On each of the five representations (dense, sparse, complement-of-complement view, complement view of the dense complement, induced-subgraph view) and on the relabelled graph: CliqueNumber/IndependenceNumber/AllMaximalCliques vs subset enumeration (set of cliques, each once, channel closed), ChromaticNumber and IsKColorable(k) for all k in 0..n+1 vs the O(3^n) partition DP with witness validation, ChromaticIndex vs chi of the line graph (m <= 11; Vizing bracket beyond) with edge-colouring validation, ChromaticPolynomial (dense, sparse; m <= 12) evaluated at k = 0..n+1 vs the number of proper colourings and argument unmodified, GreedyColor vs first-fit on the model for the drawn order and up to ten orders derived from it, IsProperColouring vs the definition, Degeneracy vs max-min-degree over all subsets with the order certificate. Values must agree across representations and the relabelling. Non-trivial: n >= 4, neither empty nor complete.",
-		Budget{Checks: 1500, Shards: 1}, Budget{Checks: 4000, Shards: 8},
+		Budget{Checks: 1500, Shards: 1}, Budget{Checks: 1200, Shards: 16},
 		func(t *rapid.T) invCase { return genInvCase(t, sz(8, 10)) }, checkColouringCase)
 }
